@@ -363,14 +363,14 @@ Proof. vm_compute. repeat split. Qed.
    context when RetryOptions.TimeoutPerAttempt is 0, else context.WithTimeout(caller's, tpa)
    created at [start].  [attempt_remaining overall_dl start tpa now] is the time the attempt has
    left at [now] -- the "caller's remaining time" of clause (a) for this call.
-   [ctx_sites] (Gen/GenCtxSites.v, regenerated from the source of EVERY package of the module on
+   [ctxflow_sites] (Gen/GenCtxFlow.v, regenerated from the source of EVERY package of the module on
    each run) lists every hand-over of a context below RunWithRetry: in RunWithRetry itself, in each
    attempt function passed to it ([retry_attempt_fns]) and in the functions those call
    (startCall -> BeginCall), with its origin (0 own parameter, 1 derived from it, 2 the ENCLOSING
    function's context captured by the attempt function, 3 anything else).
    [gen_client_src pkg] folds the origins of package pkg into the source of the context its
    BeginCall receives; [client_begin src ..] is beginCall with that context. *)
-From Verif Require Import Gen.GenCtxSites Spec.CtxSitesSpec Model.AttemptCtx Model.ConnFail
+From Verif Require Import Gen.GenCtxFlow Spec.CtxFlowSpec Model.AttemptCtx Model.ConnFail
   Proofs.AttemptCtxP Proofs.ConnFailP.
 
 (* The tie.  RunWithRetry hands its function runCtx / WithTimeout(runCtx, TimeoutPerAttempt);
@@ -379,13 +379,13 @@ From Verif Require Import Gen.GenCtxSites Spec.CtxSitesSpec Model.AttemptCtx Mod
    from it); every attempt function does hand a context on and reaches a BeginCall; the thrift and
    json clients are among them. *)
 Theorem C14_attempt_ctx_generated :
-  rows_of_fn pkg_root fn_run_with_retry ctx_sites = core_ctx_rows /\
-  forallb (path_step_present ctx_sites) core_call_path = true /\
-  forallb row_forwards ctx_sites = true /\
-  forallb (attempt_fn_covered ctx_sites) retry_attempt_fns = true /\
-  forallb (fun pf => reaches_begin (fst pf) ctx_sites) retry_attempt_fns = true /\
+  rows_of_fn pkg_root fn_run_with_retry ctxflow_sites = core_ctx_rows /\
+  forallb (path_step_present ctxflow_sites) core_call_path = true /\
+  forallb row_forwards ctxflow_sites = true /\
+  forallb (attempt_fn_covered ctxflow_sites) retry_attempt_fns = true /\
+  forallb (fun pf => reaches_begin (fst pf) ctxflow_sites) retry_attempt_fns = true /\
   forallb (fun k => existsb (fun pf => lz_eqb (fst pf) (fst k) && lz_eqb (snd pf) (snd k)) retry_attempt_fns) known_attempt_fns = true /\
-  forallb (fun p => existsb (fun pf => lz_eqb (fst pf) p) retry_attempt_fns) (client_pkgs ctx_sites) = true.
+  forallb (fun p => existsb (fun pf => lz_eqb (fst pf) p) retry_attempt_fns) (client_pkgs ctxflow_sites) = true.
 Proof. exact (conj core_rows_generated (conj core_path_generated (conj ctx_discipline_generated ctx_coverage_generated))). Qed.
 Print Assumptions C14_attempt_ctx_generated.
 
